@@ -6,7 +6,7 @@ patch applied, undoes the patch, and stores everything under /verif/seeded/<seed
 import sys, os, subprocess, json, shutil, re, time
 ENV = dict(os.environ, GOFLAGS="-mod=mod", GOPROXY="off", GOSUMDB="off", GOTOOLCHAIN="local")
 def sh(cmd, cwd="/repo", timeout=3000):
-    p = subprocess.run(cmd, shell=True, cwd=cwd, env=ENV, capture_output=True, text=True, timeout=timeout)
+    p = subprocess.run(cmd, shell=True, cwd=cwd, env=ENV, capture_output=True, text=True, errors="replace", timeout=timeout)
     return p.returncode, (p.stdout + p.stderr)
 def main():
     src, sid = os.path.abspath(sys.argv[1]), sys.argv[2]
